@@ -805,3 +805,61 @@ M('C11-twin-earlier-form', 'C11', CONN,
   "            if self.connection.context.protocol_later_eq(107):\n                teleport_confirm = serverbound.play.TeleportConfirmPacket()\n                teleport_confirm.teleport_id = packet.teleport_id\n                self.connection.write_packet(teleport_confirm)\n            else:\n",
   "            if not self.connection.context.protocol_earlier(107):\n                teleport_confirm = serverbound.play.TeleportConfirmPacket(\n                    teleport_id=packet.teleport_id)\n                self.connection.write_packet(teleport_confirm)\n            else:\n",
   expect='silent')
+
+# ---------------------------------------------------------------- C09
+M('C09-status-request-on-single', 'C09', CONN,
+  "                self.write_packet(login_start_packet)\n                self.reactor = LoginReactor(self)",
+  "                self.write_packet(serverbound.status.RequestPacket())\n                self.write_packet(login_start_packet)\n                self.reactor = LoginReactor(self)",
+  rule='R09.2')
+M('C09-next-state-unassigned', 'C09', CONN, "        handshake.next_state = next_state\n", "", rule='R09.3')
+M('C09-handshake-default-version', 'C09', CONN, "        handshake.protocol_version = self.context.protocol_version",
+  "        handshake.protocol_version = self.default_proto_version", rule='R09.3')
+M('C09-mismatch-wording-swapped', 'C09', CONN,
+  "        ss = 'supported, but not allowed for this connection' \\\n             if server_protocol in SUPPORTED_PROTOCOL_VERSIONS \\\n             else 'not supported'",
+  "        ss = 'not supported' \\\n             if server_protocol in SUPPORTED_PROTOCOL_VERSIONS \\\n             else 'supported, but not allowed for this connection'",
+  rule='R09.4m')
+M('C09-empty-status-after-version-test', 'C09', CONN,
+  "        if status == {}:\n            # This can occur when we connect to a Mojang server while it is\n            # still initialising, so it must not cause the client to connect\n            # with the default version.\n            raise IOError('Invalid server status.')\n        elif 'version' not in status or 'protocol' not in status['version']:\n            return self.handle_failure()",
+  "        if 'version' not in status or 'protocol' not in status['version']:\n            return self.handle_failure()\n        elif status == {}:\n            raise IOError('Invalid server status.')",
+  rule='R09.4')
+M('C09-fallback-any-exception', 'C09', CONN, "        if isinstance(exc, EOFError):", "        if isinstance(exc, Exception):",
+  rule='R09.5')
+M('C09-handle-status-twice', 'C09', CONN,
+  "            else:\n                self.connection.disconnect()\n            self.handle_status(status_dict)",
+  "            else:\n                self.connection.disconnect()\n                self.handle_status(status_dict)\n            self.handle_status(status_dict)",
+  rule='R09.6')
+M('C09-ping-always', 'C09', CONN, "            if self.do_ping:\n                ping_packet = serverbound.status.PingPacket()",
+  "            if True:\n                ping_packet = serverbound.status.PingPacket()", rule='R09.6')
+M('C09-mismatch-unsupported-only', 'C09', CONN, "        if proto not in self.connection.allowed_proto_versions:",
+  "        if proto not in SUPPORTED_PROTOCOL_VERSIONS:", rule='R09.4')
+M('C09-not-narrowed', 'C09', CONN, "        self.connection.allowed_proto_versions = {proto_version}\n        self.connection.connect()",
+  "        self.connection.connect()", rule='R09.4')
+M('C09-helper-accepts-known', 'C09', CONN, "                proto_version = SUPPORTED_MINECRAFT_VERSIONS.get(version)",
+  "                proto_version = KNOWN_MINECRAFT_VERSIONS.get(version)", expect='silent')
+M('C09-helper-no-membership-test', 'C09', CONN,
+  "            if proto_version not in SUPPORTED_PROTOCOL_VERSIONS:\n                raise ValueError('Unsupported version number: %r.' % version)",
+  "            if proto_version is None:\n                raise ValueError('Unsupported version number: %r.' % version)",
+  rule='R09.1')
+M('C09-latency-reversed', 'C09', CONN, "                self.handle_ping(now - packet.time)",
+  "                self.handle_ping(packet.time - now)", rule='R09.6')
+M('C09-login-name-always-username', 'C09', CONN,
+  "                if self.auth_token:\n                    login_start_packet.name = self.auth_token.profile.name\n                else:\n                    login_start_packet.name = self.username",
+  "                login_start_packet.name = self.username", rule='R09.2')
+M('C09-version-store-after-handshake', 'C09', CONN,
+  "            self.context.protocol_version \\\n                = max(self.allowed_proto_versions,\n                      key=PROTOCOL_VERSION_INDICES.get)\n\n            self.spawned = False\n            self._connect()",
+  "            self.spawned = False\n            self._connect()", rule='R09.8')
+M('C09-version-max-numeric', 'C09', CONN,
+  "                = max(self.allowed_proto_versions,\n                      key=PROTOCOL_VERSION_INDICES.get)\n\n            self.spawned = False",
+  "                = max(self.allowed_proto_versions)\n\n            self.spawned = False", rule='R09.8')
+M('C09-status-false-keeps-printing', 'C09', CONN,
+  "            if handle_status is False:\n                self.reactor.handle_status = lambda *args, **kwds: None\n            elif handle_status is not None:",
+  "            if handle_status is not None:", rule='R09.6')
+M('C09-mismatch-drops-name', 'C09', CONN, "                server_version=status['version'].get('name'))",
+  "                server_version=None)", rule='R09.4')
+M('C09-twin-reorder-handshake', 'C09', CONN,
+  "        handshake.server_address = self.options.address\n        handshake.server_port = self.options.port",
+  "        handshake.server_port = self.options.port\n        handshake.server_address = self.options.address", expect='silent')
+M('C09-twin-in-form', 'C09', CONN,
+  "        if proto not in self.connection.allowed_proto_versions:\n            self.connection._version_mismatch(\n                server_protocol=proto,\n                server_version=status['version'].get('name'))\n\n        self.handle_proto_version(proto)",
+  "        if proto in self.connection.allowed_proto_versions:\n            self.handle_proto_version(proto)\n        else:\n            self.connection._version_mismatch(\n                server_protocol=proto,\n                server_version=status['version'].get('name'))",
+  expect='silent')
